@@ -176,3 +176,4 @@ Print Assumptions C16_sandwich_partial.
 Print Assumptions C16_sandwich_partial_spec.
 Print Assumptions C16_nonvacuous.
 Print Assumptions C16_query_nonvacuous.
+
